@@ -95,10 +95,20 @@ func c12GenRulesDest(t *rapid.T, name string) fxDest {
 			d.Rules = append(d.Rules, ru)
 			continue
 		}
+		c12OddRate(t, rl, &def)
 		ru.Def = &def
 		d.Rules = append(d.Rules, ru)
 	}
 	return d
+}
+
+// c12OddRate: now and then a target rate the validator accepts although it makes
+// little sense (SampleRate / GoalSampleRate 0 or negative; throughput goals
+// below 1 are rejected by the validator and never generated).
+func c12OddRate(t *rapid.T, label string, d *fxDef) {
+	if (d.Type == "dynamic" || d.Type == "emadynamic") && rapid.IntRange(0, 11).Draw(t, label+"/oddrate") == 0 {
+		d.Rate = rapid.SampledFrom([]int{0, -3}).Draw(t, label+"/oddratevalue")
+	}
 }
 
 func c12GenDest(t *rapid.T, name string) fxDest {
@@ -108,6 +118,7 @@ func c12GenDest(t *rapid.T, name string) fxDest {
 		return c12GenRulesDest(t, name)
 	case k <= 8:
 		def := fxGenDef(t, name+"/top", fxTypes, c12Rates, c12FieldLists)
+		c12OddRate(t, name+"/top", &def)
 		return fxDest{Name: name, Top: &def}
 	default:
 		return fxDest{Name: name, Top: &fxDef{Type: "deterministic", Rate: rapid.IntRange(1, 10).Draw(t, name+"/detrate")}}
@@ -195,7 +206,7 @@ func c12Mutate(t *rapid.T, prev fxRules) fxRules {
 	switch k := rapid.IntRange(0, 9).Draw(t, "mutate/kind"); {
 	case k <= 6:
 		p := rapid.SampledFrom(fxTuning[d.Type]).Draw(t, "mutate/param")
-		d.setParam(p, rapid.IntRange(1, 2).Draw(t, "mutate/pval"))
+		d.setParam(p, fxDrawPval(t, "mutate/pval"))
 	case k <= 8:
 		d.Rate = rapid.SampledFrom(c12Rates).Draw(t, "mutate/rate")
 	default:
@@ -529,11 +540,11 @@ func execC12(c c12Case) vkit.Result {
 func TestC12(t *testing.T) {
 	vkit.Run(t, vkit.Spec[c12Case]{
 		ID:   "C12",
-		Rule: "rapid-generated rules files (1-3 versions; destinations prod/staging/__default__/a look-alike name; top-level and rule-downstream samplers of all five dynsampler-backed types drawn from a small pool that differs in 0-2 tuning parameters, the rate, the field set or the type), validated by refinery's rules validator and loaded through config.NewConfig from files; histories of lazy creation by 1-4 workers (the collector's per-worker cache logic) and real config reloads. After every step the identity of the dynsampler-go instance behind every cached sampler (verif hook) is compared pairwise. About 3 in 10 cases run the concurrent sub-mode instead: 2/4/8 workers released by one barrier create the samplers of 1-3 destinations at the same moment on a fresh factory, 30 (thorough 60) repetitions per case, most of them with a Metrics double that holds the first creator inside metrics registration until the others are done or stuck; the same pairwise identity oracle (plus a worker arriving later, plus the gauge) is applied after each repetition. Non-trivial: two workers hold a sampler for the same destination, or two definitions in one destination differ in exactly one parameter and both are instantiated. Distinct = distinct case JSON.",
+		Rule: "rapid-generated rules files (1-3 versions; destinations prod/staging/__default__/a look-alike name; top-level and rule-downstream samplers of all five dynsampler-backed types drawn from a small pool that differs in 0-2 tuning parameters (ordinary values, and values the validator accepts but the samplers normalise: negative and explicit-zero durations, negative MaxKeys/BurstMultiple/InitialSampleRate, SampleRate 0/-3), the rate, the field set or the type), validated by refinery's rules validator and loaded through config.NewConfig from files; histories of lazy creation by 1-4 workers (the collector's per-worker cache logic) and real config reloads. After every step the identity of the dynsampler-go instance behind every cached sampler (verif hook) is compared pairwise. About 3 in 10 cases run the concurrent sub-mode instead: 2/4/8 workers released by one barrier create the samplers of 1-3 destinations at the same moment on a fresh factory, 30 (thorough 60) repetitions per case, most of them with a Metrics double that holds the first creator inside metrics registration until the others are done or stuck; the same pairwise identity oracle (plus a worker arriving later, plus the gauge) is applied after each repetition. Non-trivial: two workers hold a sampler for the same destination, or two definitions in one destination differ in exactly one parameter and both are instantiated. Distinct = distinct case JSON.",
 		Assumptions: []string{
 			"identity of the dynsampler-go instance == identity of the rate-tracking state (the Sampler wrappers only hold configuration and the key builder)",
 			"the per-worker cache in the harness mirrors collect.CollectorWorker.datasetSamplers; reload = ClearDynsamplers then every worker clears its cache (collect.reloadConfigs), executed atomically",
-			"definitions whose FieldList differs only in order are treated as identical (refinery documents and pins this)",
+			"definitions whose FieldList differs only in order are treated as identical (refinery documents and pins this); a duration written as 0s is the same configuration as an unset one; a negative value is a different configuration from an unset one even where the sampler treats both alike",
 			"identical definitions in two rules of one destination may or may not share state (statement allows both)",
 			"rules files are validated by config.Metadata.ValidateRules and then loaded with --no-validate (the loader would re-parse its metadata on every load)",
 			"concurrent sub-mode: verdicts come from observed instance identity only; which interleavings occur is up to the scheduler (measured: conc_* counters and conc/ classes) except for the one the gate forces (another worker runs while the first creator is inside metrics registration)",
